@@ -431,6 +431,16 @@ package ops
 //@   ensures to_uint16: dataType == 4 ==> typeof(result) == tagof("[]uint16") && len(unbox(result, "[]uint16")) == len(backing)
 //@   ensures to_uint32: dataType == 12 ==> typeof(result) == tagof("[]uint32") && len(unbox(result, "[]uint32")) == len(backing)
 //@   ensures to_uint64: dataType == 13 ==> typeof(result) == tagof("[]uint64") && len(unbox(result, "[]uint64")) == len(backing)
+//@   ensures each_to_float32: dataType == 1 ==> (forall k :: 0 <= k && k < len(backing) ==> unbox(result, "[]float32")[k] == goconv(backing[k], "float32"))
+//@   ensures each_to_float64: dataType == 11 ==> (forall k :: 0 <= k && k < len(backing) ==> unbox(result, "[]float64")[k] == goconv(backing[k], "float64"))
+//@   ensures each_to_int8: dataType == 3 ==> (forall k :: 0 <= k && k < len(backing) ==> unbox(result, "[]int8")[k] == goconv(backing[k], "int8"))
+//@   ensures each_to_int16: dataType == 5 ==> (forall k :: 0 <= k && k < len(backing) ==> unbox(result, "[]int16")[k] == goconv(backing[k], "int16"))
+//@   ensures each_to_int32: dataType == 6 ==> (forall k :: 0 <= k && k < len(backing) ==> unbox(result, "[]int32")[k] == goconv(backing[k], "int32"))
+//@   ensures each_to_int64: dataType == 7 ==> (forall k :: 0 <= k && k < len(backing) ==> unbox(result, "[]int64")[k] == goconv(backing[k], "int64"))
+//@   ensures each_to_uint8: dataType == 2 ==> (forall k :: 0 <= k && k < len(backing) ==> unbox(result, "[]uint8")[k] == goconv(backing[k], "uint8"))
+//@   ensures each_to_uint16: dataType == 4 ==> (forall k :: 0 <= k && k < len(backing) ==> unbox(result, "[]uint16")[k] == goconv(backing[k], "uint16"))
+//@   ensures each_to_uint32: dataType == 12 ==> (forall k :: 0 <= k && k < len(backing) ==> unbox(result, "[]uint32")[k] == goconv(backing[k], "uint32"))
+//@   ensures each_to_uint64: dataType == 13 ==> (forall k :: 0 <= k && k < len(backing) ==> unbox(result, "[]uint64")[k] == goconv(backing[k], "uint64"))
 
 //@ func ConvertTensorDtype
 //@   tags C11,C02
